@@ -17,30 +17,22 @@ Definition vabs_out := abs_out (abs b).
 Lemma len_abs_b v : Inv b v -> Z.of_nat (length (abs b v)) = count v.
 Proof. intros H. pose proof (abs_zlen b v H) as E. unfold zlen in E. exact E. Qed.
 
-Theorem apply_refines_b strict x o : VInv x -> strict = true \/ op_safe x o ->
-  vabs_out (m_apply b strict x o) = s_apply (vabs x) o /\ out_inv (Inv b) (m_apply b strict x o).
+Theorem apply_refines_b x o : VInv x ->
+  vabs_out (m_apply b x o) = s_apply (vabs x) o /\ out_inv (Inv b) (m_apply b x o).
 Proof.
   apply (apply_refines b (Inv b) (abs b) (inv_empty b Hb) len_abs_b (index_ref b Hb) (conj_ref b Hb)
            (assoc_ref b Hb) (pop_ref b Hb) (iter_ref b Hb)).
 Qed.
 
-Theorem history_strict_b ops :
-  map vabs_out (run (m_apply b true) [Some (Vec empty)] ops) = run s_apply [Some []] ops.
+Theorem history_refines_list_b ops :
+  map vabs_out (run (m_apply b) [Some (Vec empty)] ops) = run s_apply [Some []] ops.
 Proof.
-  apply (history_refines_list_strict b (Inv b) (abs b) (inv_empty b Hb) len_abs_b (index_ref b Hb) (conj_ref b Hb)
+  apply (history_refines_list b (Inv b) (abs b) (inv_empty b Hb) len_abs_b (index_ref b Hb) (conj_ref b Hb)
            (assoc_ref b Hb) (pop_ref b Hb) (iter_ref b Hb)).
   apply st_rel_init. apply inv_empty; exact Hb.
 Qed.
 
-Theorem history_partial_b ops : safe b [Some (Vec empty)] ops ->
-  map vabs_out (run (m_apply b false) [Some (Vec empty)] ops) = run s_apply [Some []] ops.
-Proof.
-  apply (history_refines_list_partial b (Inv b) (abs b) (inv_empty b Hb) len_abs_b (index_ref b Hb) (conj_ref b Hb)
-           (assoc_ref b Hb) (pop_ref b Hb) (iter_ref b Hb)).
-  apply st_rel_init. apply inv_empty; exact Hb.
-Qed.
-
-(* no operation of any (safe) history panics or runs out of fuel *)
+(* no operation of any history panics or runs out of fuel *)
 Lemma s_apply_total l o : s_apply l o <> XPanic /\ s_apply l o <> XFuel.
 Proof.
   destruct o; cbn [s_apply]; unfold of_opt;
@@ -62,21 +54,22 @@ Proof. destruct o; simpl; split; intros H; try discriminate; auto. Qed.
 Lemma abs_out_fuel o : vabs_out o = XFuel <-> o = XFuel.
 Proof. destruct o; simpl; split; intros H; try discriminate; auto. Qed.
 
-Theorem no_panic_partial_b ops : safe b [Some (Vec empty)] ops ->
-  ~ In XPanic (run (m_apply b false) [Some (Vec empty)] ops) /\
-  ~ In XFuel (run (m_apply b false) [Some (Vec empty)] ops).
+Theorem no_panic_b ops :
+  ~ In XPanic (run (m_apply b) [Some (Vec empty)] ops) /\
+  ~ In XFuel (run (m_apply b) [Some (Vec empty)] ops).
 Proof.
-  intros Hs. pose proof (history_partial_b ops Hs) as E.
+  pose proof (history_refines_list_b ops) as E.
   destruct (run_spec_total ops [Some []]) as [N1 N2]. rewrite <- E in N1, N2.
   split; intros H; [apply N1|apply N2]; apply in_map_iff; eexists; (split; [|exact H]); reflexivity.
 Qed.
 
 End Final.
 
-(* ---- the defect: a slice of a slice is not tested against the slice ---- *)
-Definition subsub_witness : list op := [OConjRange 0 0 6; OSub 1 2 5; OSub 2 0 4].
+(* ---- the former defect (slice of a slice not tested against the slice):
+   the requests of the old counterexample are now rejected, as on plain lists ---- *)
+Definition subsub_witness : list op := [OConjRange 0 0 6; OSub 1 2 5; OSub 2 0 4; OSub 2 (-1) 2].
 
-Lemma subsub_bounds_refuted :
-  map (vabs_out cb) (run (m_apply cb false) [Some (Vec empty)] subsub_witness)
-  <> run s_apply [Some []] subsub_witness.
-Proof. vm_compute. discriminate. Qed.
+Lemma subsub_bounds_rejected :
+  run (m_apply cb) [Some (Vec empty)] subsub_witness
+  = [XVec (Vec (mkVec 6 0 ANil (zrange 6 0))); XVec (Sub (mkVec 6 0 ANil (zrange 6 0)) 2 5); XRejected; XRejected].
+Proof. vm_compute. reflexivity. Qed.
